@@ -10,6 +10,12 @@ class Boom(BaseException):
     pass
 
 
+class Once:
+    """an awaitable that really suspends, once"""
+    def __await__(self):
+        yield 0
+
+
 def main():
     req = json.load(sys.stdin)
     buf = io.StringIO()
@@ -93,8 +99,11 @@ def main():
                         raise RuntimeError("exit")
                     if exit_ == "raisebase":
                         raise Boom("exit")
-                g = {"inner": inner}
-                if exit_ == "generator":
+                g = {"inner": inner, "ONCE": Once}
+                if exit_ == "generator" and variant == "coro":
+                    # a coroutine function: the body runs when the coroutine object is driven, and it SUSPENDS once (a real await)
+                    src = "async def f(%s):\n    inner()\n    await ONCE()\n" % ", ".join(names)
+                elif exit_ == "generator":
                     src = "def f(%s):\n    inner()\n    yield 0\n" % ", ".join(names)
                 else:
                     src = "def f(%s):\n    inner()\n" % ", ".join(names)
@@ -121,7 +130,20 @@ def main():
                 try:
                     r = fn(*vals) if binds else fn(*(vals + [0, 0]))
                     mid = snapshot()
-                    if exit_ == "generator":
+                    if exit_ == "generator" and variant == "coro":
+                        if before != mid:
+                            orac.append({"node": "call", "style": style, "variant": variant, "exit": "coroutine-created", "before": before, "after": mid})
+                        try:
+                            r.send(None)                      # runs the body up to the await
+                            susp = snapshot()
+                            if before[0] != susp[0]:            # (the body's own checks may have bound axes in the CALLER's context: only the depth is fixed)
+                                orac.append({"node": "call", "style": style, "variant": variant, "exit": "coroutine-suspended", "before": before, "after": susp})
+                            r.send(None)
+                        except StopIteration:
+                            pass
+                        finally:
+                            r.close()
+                    elif exit_ == "generator":
                         if before != mid:
                             orac.append({"node": "call", "style": style, "variant": variant, "exit": "generator-created", "before": before, "after": mid})
                         for _ in r:
